@@ -115,6 +115,14 @@ func run(t *core.Tape, st *core.Stats) *core.Violation {
 		st.Inc("probe:schema-with-dangling-target")
 	}
 
+	// "once a schema has been built": in a quarter of the runs through a longer edit history
+	viaHistory := t.Bool(1, 4)
+	histSeed := t.Seed64()
+
+	if viaHistory {
+		st.Inc("probe:schema-built-through-edit-history")
+	}
+
 	build := func() (*jsonapi.Schema, error, *core.Panic) {
 		var (
 			s   *jsonapi.Schema
@@ -122,7 +130,13 @@ func run(t *core.Tape, st *core.Stats) *core.Violation {
 		)
 
 		p := core.Call(func() {
-			s, err = spec.BuildSchema(nil)
+			if viaHistory {
+				// the same longer edit history for the shared schema, the twin and the solo copy
+				s, _, err = spec.BuildSchemaHist(core.NewTape(histSeed))
+			} else {
+				s, err = spec.BuildSchema(nil)
+			}
+
 			if err == nil && dangling {
 				_ = s.AddRel(spec.Types[0].Name, jsonapi.Rel{FromType: spec.Types[0].Name, FromName: "dangling-rel", ToType: "nowhere", ToName: "back"})
 			}
